@@ -120,6 +120,50 @@ pub fn items(ctx: &Ctx, rep: &mut Report) -> Vec<Item> {
     v
 }
 
+/// Additional accepted proofs kept under /verif/corpus/accepted (serde images with their build facts);
+/// used as bases by C02 (not part of C03's enumeration).
+pub fn extra_accepted(rep: &mut Report) -> Vec<Item> {
+    let dir = format!("{}/corpus/accepted", std::env::var("VERIF_DIR").unwrap_or_else(|_| "/verif".into()));
+    let mut v = Vec::new();
+    let mut names: Vec<_> = std::fs::read_dir(&dir).map(|rd| rd.filter_map(|e| e.ok()).map(|e| e.path()).collect()).unwrap_or_default();
+    names.sort();
+    for p in names {
+        if p.extension().map(|e| e != "json").unwrap_or(true) {
+            continue;
+        }
+        let parsed = std::fs::read_to_string(&p).ok().and_then(|t| serde_json::from_str::<Value>(&t).ok());
+        let j = match parsed {
+            Some(j) => j,
+            None => {
+                rep.broken.push(format!("unreadable corpus proof {:?}", p));
+                continue;
+            }
+        };
+        let proof: StarkProof = match serde_json::from_value(j["proof"].clone()) {
+            Ok(p) => p,
+            Err(e) => {
+                rep.broken.push(format!("corpus proof {:?}: {}", p, e));
+                continue;
+            }
+        };
+        v.push(Item {
+            name: format!("corpus:{}", j["name"].as_str().unwrap_or("?")),
+            layout: j["layout"].as_str().unwrap_or("recursive").to_string(),
+            stone: j["stone"].as_u64().unwrap_or(5) as u8,
+            commitment_hash: match j["commitment_hash"].as_str() {
+                Some("blake2s_248_lsb") => HashKind::Blake248,
+                Some("blake2s_160_lsb") => HashKind::Blake160,
+                Some("keccak_248_lsb") => HashKind::Keccak248,
+                _ => HashKind::Keccak160,
+            },
+            pow_keccak: j["pow_keccak"].as_bool().unwrap_or(true),
+            masked: j["masked"].as_bool().unwrap_or(false),
+            proof,
+        });
+    }
+    v
+}
+
 pub fn predict(it: &Item, layout: &str) -> (bool, &'static str) {
     let bh = build_hash();
     if it.layout != layout {
